@@ -17,6 +17,15 @@ def load_claims():
         except Exception as e:
             print('warning: cannot import props.%s: %r' % (pid.lower(), e)); continue
         c = getattr(mod, 'CLAIM', None)
+        # a property is only claimed once Props/<pid>.v states real theorems (not the bootstrap placeholder)
+        import re
+        try:
+            src = open(os.path.join(ROOT, 'coq', 'Props', pid + '.v')).read()
+        except OSError:
+            src = ''
+        names = re.findall(r'^\s*(?:Theorem|Lemma|Corollary)\s+([A-Za-z_][A-Za-z0-9_\']*)', src, re.M)
+        if len([n for n in names if 'placeholder' not in n.lower() and 'bootstrap' not in n.lower()]) < 3:
+            c = None
         if c: out[pid] = (c['technique'], c['text'], c['note'], c.get('ref', 'DESIGN.md section 4, ' + pid))
     return out
 CHECKS = load_claims()
